@@ -115,6 +115,7 @@ func NewCore(
 // Ends the core: threads which join this one may go on, then the interrupt (nil after a normal end) is handed to `Wait`.
 func (self *Core) finish(i *value.VmInterrupt) {
 	self.ended = i
+	vh("Finish", int64(self.Corenum), vhKind(i))
 	close(self.finished)
 	self.SignalHandle <- i
 }
